@@ -1,5 +1,9 @@
 import XV.Lemmas.Assoc
 import XV.Lemmas.ChainFrame
+import XV.Lemmas.InvTable
+import XV.Lemmas.InvBlock
+import XV.Lemmas.InvKeys
+import XV.Lemmas.InvList
 /-!
 C03 — no double spend of outputs or key versions; admission iff inputs are current.
 Theorems about the admission rule `admitTx` (= `CheckInputEqualOutput` + `XModel.verifyInputs/verifyOutputs`)
@@ -258,5 +262,308 @@ example :
                              (2, ⟨2, false, [⟨0, 0, "u0", 5, 0, false⟩], [⟨"u2", 5, 0⟩], [], []⟩)] }
     let s : St := { U := [((0, 0), ⟨"u0", 5, 0⟩)] }
     (doTx e s 0 1).2 = .ok ∧ (doTx e (doTx e s 0 1).1 0 2).2 = .utxo := by decide
+
+-- ================================================================ history level: no double spend in the pool
+
+/-- `t` supersedes version `v` of key `k`: it writes `k` having read it at `v` (`none` = never written) -/
+def supersedes (t : Tx) (k : String) (v : Option Ver) : Prop :=
+  (∃ ko ∈ t.kout, ko.key = k) ∧ (∃ ki ∈ t.kin, ki.key = k ∧ ki.ver = v)
+
+/-- hash-causality of a submitted transaction (ids are hashes of the content, so a transaction can only cite what
+existed before it): its id is cited by no pending transaction — neither as the source of a token input nor as the writer
+of a key version read — and it does not cite itself -/
+structure Causal (e : Env) (s : St) (i : Nat) : Prop where
+  notCited : ∀ j ∈ s.pool, ∀ r ∈ (e.tx j).ins, r.tx ≠ (e.tx i).id
+  notCitedVer : ∀ j ∈ s.pool, ∀ ki ∈ (e.tx j).kin, ki.ver.map (·.1) ≠ some (e.tx i).id
+  noSelf : ∀ r ∈ (e.tx i).ins, r.tx ≠ (e.tx i).id
+  noSelfVer : ∀ ki ∈ (e.tx i).kin, ki.ver.map (·.1) ≠ some (e.tx i).id
+
+/-- token part of the no-double-spend invariant, relative to a set `old` of transactions whose mutual disjointness is
+not claimed (`old = []`: all pairs): every input of a pending transaction is spent, and two distinct pending
+transactions not both in `old` share no token input -/
+structure InsDisjoint (e : Env) (old : List Nat) (s : St) : Prop where
+  insSpent : ∀ i ∈ s.pool, ∀ r ∈ (e.tx i).ins, lookup s.U (r.tx, r.off) = none
+  disjoint : ∀ i ∈ s.pool, ∀ j ∈ s.pool, i ≠ j → ¬ (i ∈ old ∧ j ∈ old) →
+    ∀ r ∈ (e.tx i).ins, ∀ r' ∈ (e.tx j).ins, (r.tx, r.off) ≠ (r'.tx, r'.off)
+
+/-- key part: the versions superseded by pending transactions are not current, and two distinct pending transactions
+not both in `old` supersede no common key version -/
+structure VersDisjoint (e : Env) (old : List Nat) (s : St) : Prop where
+  versGone : ∀ i ∈ s.pool, ∀ k v, supersedes (e.tx i) k v → curVer s k ≠ v
+  disjoint : ∀ i ∈ s.pool, ∀ j ∈ s.pool, i ≠ j → ¬ (i ∈ old ∧ j ∈ old) →
+    ∀ k v, supersedes (e.tx i) k v → ¬ supersedes (e.tx j) k v
+
+theorem InsDisjoint_init (e : Env) (s : St)
+    (h : ∀ i ∈ s.pool, ∀ r ∈ (e.tx i).ins, lookup s.U (r.tx, r.off) = none) : InsDisjoint e s.pool s :=
+  ⟨h, fun _ hi _ hj _ hno => absurd ⟨hi, hj⟩ hno⟩
+
+theorem VersDisjoint_init (e : Env) (s : St)
+    (h : ∀ i ∈ s.pool, ∀ k v, supersedes (e.tx i) k v → curVer s k ≠ v) : VersDisjoint e s.pool s :=
+  ⟨h, fun _ hi _ hj _ hno => absurd ⟨hi, hj⟩ hno⟩
+
+theorem InsDisjoint_empty (e : Env) (old : List Nat) (s : St) (h : s.pool = []) : InsDisjoint e old s :=
+  ⟨(by rw [h]; intro i hi; cases hi), (by rw [h]; intro i hi; cases hi)⟩
+
+theorem VersDisjoint_empty (e : Env) (old : List Nat) (s : St) (h : s.pool = []) : VersDisjoint e old s :=
+  ⟨(by rw [h]; intro i hi; cases hi), (by rw [h]; intro i hi; cases hi)⟩
+
+/-- one admission keeps the token invariant: the new transaction's inputs were unspent, those of every pending
+transaction were spent — so they differ — and afterwards all of them are spent -/
+theorem doTx_InsDisjoint (e : Env) (old : List Nat) (s : St) (lh : Int) (i : Nat) (hinv : InsDisjoint e old s)
+    (hc : (doTx e s lh i).2 = .ok → Causal e s i) : InsDisjoint e old (doTx e s lh i).1 := by
+  by_cases hok : (doTx e s lh i).2 = .ok
+  · obtain ⟨hnp, hadm, hs'⟩ := doTx_ok e s lh i hok
+    have hca := hc hok
+    obtain ⟨hcur, _, _, _⟩ := admit_sound s lh (e.tx i) hadm
+    rw [hs']
+    have hnew : ∀ a ∈ s.pool, ∀ r ∈ (e.tx a).ins, ∀ r' ∈ (e.tx i).ins, (r.tx, r.off) ≠ (r'.tx, r'.off) := by
+      intro a ha r hr r' hr' heq
+      obtain ⟨u, hu, _⟩ := hcur r' hr'
+      rw [← heq, hinv.insSpent a ha r hr] at hu
+      cases hu
+    constructor
+    · intro j hj r hr
+      simp only at hj ⊢
+      rcases List.mem_append.mp hj with hj | hj
+      · exact spent_stays_spent s (e.tx i) (r.tx, r.off) (hca.notCited j hj r hr) (hinv.insSpent j hj r hr)
+      · simp only [List.mem_cons, List.not_mem_nil, or_false] at hj; subst hj
+        exact consume s (e.tx j) hca.noSelf r hr
+    · intro a ha0 b hb0 hab hold r hr r' hr'
+      have ha := List.mem_append.mp ha0
+      have hb := List.mem_append.mp hb0
+      clear ha0 hb0
+      simp only [List.mem_cons, List.not_mem_nil, or_false] at ha hb
+      rcases ha with ha | ha
+      · rcases hb with hb | hb
+        · exact hinv.disjoint a ha b hb hab hold r hr r' hr'
+        · rw [hb] at hr'
+          exact hnew a ha r hr r' hr'
+      · rcases hb with hb | hb
+        · rw [ha] at hr
+          exact fun heq => hnew b hb r' hr' r hr heq.symm
+        · exact absurd (ha.trans hb.symm) hab
+  · have : (doTx e s lh i).1 = s := by
+      unfold doTx at hok ⊢
+      by_cases hp : i ∈ s.pool
+      · simp [hp]
+      · simp only [List.contains_eq_mem, hp, decide_false] at hok ⊢
+        cases hadm : admitTx s lh (e.tx i) <;> simp_all
+    rw [this]; exact hinv
+
+/-- one admission keeps the key invariant: the versions the new transaction read were current, those superseded by
+pending transactions were not; afterwards every key it wrote is at a version of its own -/
+theorem doTx_VersDisjoint (e : Env) (old : List Nat) (s : St) (lh : Int) (i : Nat) (hinv : VersDisjoint e old s)
+    (hc : (doTx e s lh i).2 = .ok → Causal e s i) : VersDisjoint e old (doTx e s lh i).1 := by
+  by_cases hok : (doTx e s lh i).2 = .ok
+  · obtain ⟨hnp, hadm, hs'⟩ := doTx_ok e s lh i hok
+    have hca := hc hok
+    obtain ⟨_, _, hkin, _⟩ := admit_sound s lh (e.tx i) hadm
+    rw [hs']
+    have hnew : ∀ a ∈ s.pool, ∀ k v, supersedes (e.tx a) k v → ¬ supersedes (e.tx i) k v := by
+      intro a ha k v hsa hsi
+      obtain ⟨_, ki, hki, hkk, hkv⟩ := hsi
+      have := hkin ki hki
+      rw [hkk, hkv] at this
+      exact hinv.versGone a ha k v hsa this
+    constructor
+    · intro j hj k v hsup
+      show curVer (applyTx s (e.tx i)) k ≠ v
+      simp only at hj
+      by_cases hw : ∃ ko ∈ (e.tx i).kout, ko.key = k
+      · obtain ⟨o, ho⟩ := applyTx_curVer_written s (e.tx i) k hw
+        rw [ho]
+        intro hv
+        obtain ⟨_, ki, hki, _, hkv⟩ := hsup
+        rcases List.mem_append.mp hj with hj | hj
+        · exact hca.notCitedVer j hj ki hki (by rw [hkv.trans hv.symm]; rfl)
+        · simp only [List.mem_cons, List.not_mem_nil, or_false] at hj; subst hj
+          exact hca.noSelfVer ki hki (by rw [hkv.trans hv.symm]; rfl)
+      · rw [applyTx_curVer_other s (e.tx i) k (fun ko hko he => hw ⟨ko, hko, he⟩)]
+        rcases List.mem_append.mp hj with hj | hj
+        · exact hinv.versGone j hj k v hsup
+        · simp only [List.mem_cons, List.not_mem_nil, or_false] at hj; subst hj
+          exact absurd hsup.1 hw
+    · intro a ha0 b hb0 hab hold k v hsa hsb
+      have ha := List.mem_append.mp ha0
+      have hb := List.mem_append.mp hb0
+      clear ha0 hb0
+      simp only [List.mem_cons, List.not_mem_nil, or_false] at ha hb
+      rcases ha with ha | ha
+      · rcases hb with hb | hb
+        · exact hinv.disjoint a ha b hb hab hold k v hsa hsb
+        · rw [hb] at hsb
+          exact hnew a ha k v hsa hsb
+      · rcases hb with hb | hb
+        · rw [ha] at hsa
+          exact hnew b hb k v hsb hsa
+        · exact absurd (ha.trans hb.symm) hab
+  · have : (doTx e s lh i).1 = s := by
+      unfold doTx at hok ⊢
+      by_cases hp : i ∈ s.pool
+      · simp [hp]
+      · simp only [List.contains_eq_mem, hp, decide_false] at hok ⊢
+        cases hadm : admitTx s lh (e.tx i) <;> simp_all
+    rw [this]; exact hinv
+
+/-- a history of pool submissions -/
+def submitAll (e : Env) (lh : Int) : List Nat → St → St
+  | [], s => s
+  | i :: rest, s => submitAll e lh rest (doTx e s lh i).1
+
+/-- every admitted submission of the history is hash-causal at the moment it is admitted -/
+def CausalRun (e : Env) (lh : Int) : List Nat → St → Prop
+  | [], _ => True
+  | i :: rest, s => ((doTx e s lh i).2 = .ok → Causal e s i) ∧ CausalRun e lh rest (doTx e s lh i).1
+
+theorem submitAll_InsDisjoint (e : Env) (old : List Nat) (lh : Int) (subs : List Nat) (s : St)
+    (hinv : InsDisjoint e old s) (hc : CausalRun e lh subs s) : InsDisjoint e old (submitAll e lh subs s) := by
+  induction subs generalizing s with
+  | nil => exact hinv
+  | cons i rest ih => exact ih _ (doTx_InsDisjoint e old s lh i hinv hc.1) hc.2
+
+theorem submitAll_VersDisjoint (e : Env) (old : List Nat) (lh : Int) (subs : List Nat) (s : St)
+    (hinv : VersDisjoint e old s) (hc : CausalRun e lh subs s) : VersDisjoint e old (submitAll e lh subs s) := by
+  induction subs generalizing s with
+  | nil => exact hinv
+  | cons i rest ih => exact ih _ (doTx_VersDisjoint e old s lh i hinv hc.1) hc.2
+
+/-- **no double spend over whole histories**: after any list of submissions (each admitted one hash-causal) from a state
+whose pending transactions have all their inputs spent and all their superseded versions non-current, two distinct
+pending transactions — at least one of them admitted during the history — share no token input and supersede no common
+key version -/
+theorem no_double_spend_pool (e : Env) (lh : Int) (subs : List Nat) (s : St)
+    (hins : ∀ i ∈ s.pool, ∀ r ∈ (e.tx i).ins, lookup s.U (r.tx, r.off) = none)
+    (hver : ∀ i ∈ s.pool, ∀ k v, supersedes (e.tx i) k v → curVer s k ≠ v)
+    (hc : CausalRun e lh subs s) :
+    ∀ i ∈ (submitAll e lh subs s).pool, ∀ j ∈ (submitAll e lh subs s).pool, i ≠ j → ¬ (i ∈ s.pool ∧ j ∈ s.pool) →
+      (∀ r ∈ (e.tx i).ins, ∀ r' ∈ (e.tx j).ins, (r.tx, r.off) ≠ (r'.tx, r'.off)) ∧
+      (∀ k v, supersedes (e.tx i) k v → ¬ supersedes (e.tx j) k v) := by
+  intro i hi j hj hij hold
+  exact ⟨(submitAll_InsDisjoint e s.pool lh subs s (InsDisjoint_init e s hins) hc).disjoint i hi j hj hij hold,
+    (submitAll_VersDisjoint e s.pool lh subs s (VersDisjoint_init e s hver) hc).disjoint i hi j hj hij hold⟩
+
+/-- the same from an empty pool: *any* two distinct pending transactions are disjoint, and all their inputs are spent -/
+theorem no_double_spend_pool_empty (e : Env) (lh : Int) (subs : List Nat) (s : St) (hempty : s.pool = [])
+    (hc : CausalRun e lh subs s) :
+    (∀ i ∈ (submitAll e lh subs s).pool, ∀ r ∈ (e.tx i).ins, lookup (submitAll e lh subs s).U (r.tx, r.off) = none) ∧
+    ∀ i ∈ (submitAll e lh subs s).pool, ∀ j ∈ (submitAll e lh subs s).pool, i ≠ j →
+      (∀ r ∈ (e.tx i).ins, ∀ r' ∈ (e.tx j).ins, (r.tx, r.off) ≠ (r'.tx, r'.off)) ∧
+      (∀ k v, supersedes (e.tx i) k v → ¬ supersedes (e.tx j) k v) := by
+  have h1 := submitAll_InsDisjoint e [] lh subs s (InsDisjoint_empty e [] s hempty) hc
+  have h2 := submitAll_VersDisjoint e [] lh subs s (VersDisjoint_empty e [] s hempty) hc
+  exact ⟨h1.insSpent, fun i hi j hj hij =>
+    ⟨h1.disjoint i hi j hj hij (by simp), h2.disjoint i hi j hj hij (by simp)⟩⟩
+
+-- non-vacuity: history [1, 2, 3, 4] from an empty pool. 2 re-spends the input of 1 (refused), 4 re-reads the version of
+-- "k" that 1 superseded (refused), 3 spends another output and supersedes the version written by 1. Final pool [1, 3].
+example :
+    let e : Env := { txs := [
+      (1, ⟨1, false, [⟨0, 0, "u0", 5, 0, false⟩], [⟨"u1", 5, 0⟩], [⟨"k", none⟩], [⟨"k", "a", false⟩]⟩),
+      (2, ⟨2, false, [⟨0, 0, "u0", 5, 0, false⟩], [⟨"u2", 5, 0⟩], [], []⟩),
+      (3, ⟨3, false, [⟨0, 1, "u0", 7, 0, false⟩], [⟨"u3", 7, 0⟩], [⟨"k", some (1, 0)⟩], [⟨"k", "b", false⟩]⟩),
+      (4, ⟨4, false, [⟨1, 0, "u1", 5, 0, false⟩], [⟨"u4", 5, 0⟩], [⟨"k", none⟩], [⟨"k", "c", false⟩]⟩)] }
+    let s : St := { U := [((0, 0), ⟨"u0", 5, 0⟩), ((0, 1), ⟨"u0", 7, 0⟩)] }
+    CausalRun e 0 [1, 2, 3, 4] s ∧ (submitAll e 0 [1, 2, 3, 4] s).pool = [1, 3] ∧
+    supersedes (e.tx 1) "k" none ∧ supersedes (e.tx 3) "k" (some (1, 0)) := by
+  intro e s
+  refine ⟨⟨fun _ => ⟨by decide, by decide, by decide, by decide⟩, fun _ => ⟨by decide, by decide, by decide, by decide⟩,
+    fun _ => ⟨by decide, by decide, by decide, by decide⟩, fun _ => ⟨by decide, by decide, by decide, by decide⟩,
+    trivial⟩, by decide, ?_, ?_⟩
+  · exact ⟨⟨_, List.mem_cons_self, rfl⟩, ⟨_, List.mem_cons_self, rfl, rfl⟩⟩
+  · exact ⟨⟨_, List.mem_cons_self, rfl⟩, ⟨_, List.mem_cons_self, rfl, rfl⟩⟩
+
+-- ================================================================ no double spend inside a block
+
+theorem blockInputs_nodup (e : Env) (txs : List Nat) (h : blockHasDupInput e txs = false) :
+    (txs.flatMap (fun b => (e.tx b).ins.map (fun r => (r.tx, r.off)))).Nodup := by
+  unfold blockHasDupInput at h
+  simp only [Bool.not_eq_eq_eq_not, Bool.not_false, beq_iff_eq] at h
+  exact XV.InvList.nodup_of_eraseDups_length _ h
+
+/-- a block that passes the duplicate-input test: no transaction cites one output twice, and no two transactions of the
+block (at different positions) cite the same output -/
+theorem block_inputs_disjoint (e : Env) (txs : List Nat) (h : blockHasDupInput e txs = false) :
+    (∀ i ∈ txs, ((e.tx i).ins.map (fun r => (r.tx, r.off))).Nodup) ∧
+    txs.Pairwise (fun i j => ∀ r ∈ (e.tx i).ins, ∀ r' ∈ (e.tx j).ins, (r.tx, r.off) ≠ (r'.tx, r'.off)) := by
+  have hnd := blockInputs_nodup e txs h
+  unfold List.Nodup at hnd
+  obtain ⟨h1, h2⟩ := List.pairwise_flatMap.mp hnd
+  refine ⟨h1, List.Pairwise.imp ?_ h2⟩
+  intro i j hij r hr r' hr'
+  exact hij _ (List.mem_map.mpr ⟨r, hr, rfl⟩) _ (List.mem_map.mpr ⟨r', hr', rfl⟩)
+
+/-- **a block applied by `todoBlock` never contains two transactions spending the same output** — in particular none
+spending an output already consumed by an earlier transaction of the same block — nor a transaction citing one output twice -/
+theorem todoBlock_no_double_spend (e : Env) (s s' : St) (lh : Int) (b : Block) (h : todoBlock e s lh b = some s') :
+    (∀ i ∈ b.txs, ((e.tx i).ins.map (fun r => (r.tx, r.off))).Nodup) ∧
+    b.txs.Pairwise (fun i j => ∀ r ∈ (e.tx i).ins, ∀ r' ∈ (e.tx j).ins, (r.tx, r.off) ≠ (r'.tx, r'.off)) := by
+  apply block_inputs_disjoint
+  cases hd : blockHasDupInput e b.txs
+  · rfl
+  · rw [(block_double_spend_refused e s lh b hd).2] at h; cases h
+
+/-- the same for a block accepted by `play` -/
+theorem play_no_double_spend (e : Env) (s : St) (lh : Int) (b : Block) (h : (play e s lh b).2 = .ok) :
+    (∀ i ∈ b.txs, ((e.tx i).ins.map (fun r => (r.tx, r.off))).Nodup) ∧
+    b.txs.Pairwise (fun i j => ∀ r ∈ (e.tx i).ins, ∀ r' ∈ (e.tx j).ins, (r.tx, r.off) ≠ (r'.tx, r'.off)) := by
+  apply block_inputs_disjoint
+  cases hd : blockHasDupInput e b.txs
+  · rfl
+  · exact absurd h (block_double_spend_refused e s lh b hd).1
+
+/-- **every output consumed in a block is spent after the block**: the new transactions of the block (ids distinct, no
+transaction cites itself or a later transaction of the block — ids are hashes) leave none of their inputs in the table;
+each of them was admitted against the state in which the inputs of all earlier ones were already gone -/
+theorem blockRun_inputs_spent (e : Env) (lh : Int) (prop : String) (isPool : Nat → Bool) (txs : List Nat) (s s2 : St)
+    (h : blockRun e lh prop isPool txs s s2) (hid : ∀ i ∈ txs, (e.tx i).id = i)
+    (hself : ∀ i ∈ txs, ∀ r ∈ (e.tx i).ins, r.tx ≠ i)
+    (hord : txs.Pairwise (fun i j => ∀ r ∈ (e.tx i).ins, r.tx ≠ j)) :
+    ∀ i ∈ txs, isPool i = false → ∀ r ∈ (e.tx i).ins, lookup s2.U (r.tx, r.off) = none := by
+  induction txs generalizing s with
+  | nil => intro i hi; cases hi
+  | cons a rest ih =>
+    simp only [List.pairwise_cons] at hord
+    have hid' : ∀ j ∈ rest, (e.tx j).id = j := fun j hj => hid j (List.mem_cons_of_mem _ hj)
+    have hself' : ∀ j ∈ rest, ∀ r ∈ (e.tx j).ins, r.tx ≠ j := fun j hj => hself j (List.mem_cons_of_mem _ hj)
+    have hida := hid a List.mem_cons_self
+    unfold blockRun at h
+    intro i hi hp r hr
+    rcases List.mem_cons.mp hi with hia | hir
+    · subst hia
+      simp only [hp, Bool.false_eq_true, ↓reduceIte] at h
+      apply blockRun_lookup_none _ _ _ _ _ _ _ h.2 hid' (r.tx, r.off)
+      · intro hm; exact absurd rfl (hord.1 r.tx hm r hr)
+      · have hne : ((r.tx, r.off) : Ver).1 ≠ (e.tx i).id := by rw [hida]; exact hself i List.mem_cons_self r hr
+        rw [payFee_lookup_otherid _ _ _ _ _ _ hne]
+        exact consume s (e.tx i) (by rw [hida]; exact hself i List.mem_cons_self) r hr
+    · split at h
+      · exact ih _ h hid' hself' hord.2 i hir hp r hr
+      · exact ih _ h.2 hid' hself' hord.2 i hir hp r hr
+
+theorem todoBlock_inputs_spent (e : Env) (s s' : St) (lh : Int) (b : Block) (h : todoBlock e s lh b = some s')
+    (hid : ∀ i ∈ b.txs, (e.tx i).id = i) (hself : ∀ i ∈ b.txs, ∀ r ∈ (e.tx i).ins, r.tx ≠ i)
+    (hord : b.txs.Pairwise (fun i j => ∀ r ∈ (e.tx i).ins, r.tx ≠ j)) :
+    ∀ i ∈ b.txs, ∀ r ∈ (e.tx i).ins, lookup s'.U (r.tx, r.off) = none := by
+  unfold todoBlock at h
+  split at h
+  · cases h
+  · split at h
+    · rename_i s2 happ
+      simp only [Option.some.injEq] at h
+      subst h
+      have hrun := applyBlockTxs_run e lh b.prop [] b.txs s s2 happ
+      intro i hi r hr
+      exact blockRun_inputs_spent e lh b.prop _ b.txs s s2 hrun hid hself hord i hi (by simp) r hr
+    · cases h
+
+-- non-vacuity: a block whose second transaction spends the output the first consumed is refused; spending the output
+-- the first *created* is accepted, and both inputs are gone afterwards
+example :
+    let e : Env := { txs := [(1, ⟨1, false, [⟨0, 0, "u0", 5, 0, false⟩], [⟨"u1", 5, 0⟩], [], []⟩),
+                             (2, ⟨2, false, [⟨0, 0, "u0", 5, 0, false⟩], [⟨"u2", 5, 0⟩], [], []⟩),
+                             (3, ⟨3, false, [⟨1, 0, "u1", 5, 0, false⟩], [⟨"u3", 5, 0⟩], [], []⟩)] }
+    let s : St := { U := [((0, 0), ⟨"u0", 5, 0⟩)] }
+    todoBlock e s 0 ⟨20, some 0, 1, [1, 2], "m"⟩ = none ∧
+    (todoBlock e s 0 ⟨21, some 0, 1, [1, 3], "m"⟩).map (·.U) = some [((3, 0), ⟨"u3", 5, 0⟩)] := by decide
 
 end XV.C03
